@@ -138,9 +138,42 @@ func schemaSets(verif, repo string) []schemaSet {
 	}
 }
 
+// libConfigs drives the generator LIBRARIES with option combinations that have no generator flag
+// (underscore-free enumeration names reach the later rounds of ygen's enum-name clash resolution;
+// protobuf nested messages), through harness/c25/libdriver.
+func libConfigs(verif string) []*Config {
+	sch := filepath.Join(verif, "schemas")
+	clash := []string{filepath.Join(sch, "venclash-a.yang"), filepath.Join(sch, "venclash-b.yang")}
+	ven := []string{filepath.Join(sch, "ven.yang"), filepath.Join(sch, "openconfig-vex.yang")}
+	voc := []string{filepath.Join(sch, "voc.yang")}
+	mk := func(name, kind string, files []string, quick bool, flags ...string) *Config {
+		args := append([]string{"-path=" + sch, "-outdir=out"}, flags...)
+		k := "gostructs"
+		if kind == "proto" {
+			k = "proto"
+		}
+		return &Config{Name: name, Bin: "libdriver", Kind: k, Args: append(args, "-kind="+kind), Files: files, Quick: quick}
+	}
+	return []*Config{
+		mk("lib/clash/go-C-shorten", "go", clash, true, "-compress", "-shorten"),
+		mk("lib/clash/go-C-shorten-defmod", "go", clash, true, "-compress", "-shorten", "-defmod"),
+		mk("lib/clash/go-C-shorten-underscores", "go", clash, false, "-compress", "-shorten", "-underscores"),
+		mk("lib/clash/go-U", "go", clash, false),
+		mk("lib/clash/proto-C-nested", "proto", clash, true, "-compress", "-nested", "-shorten"),
+		mk("lib/ven/proto-U-nested", "proto", ven, false, "-nested"),
+		mk("lib/voc/proto-C-nested", "proto", voc, true, "-compress", "-nested"),
+		mk("lib/voc/go-C-skipdedup", "go", voc, false, "-compress", "-skipdedup", "-shorten"),
+	}
+}
+
 // corpus builds the configuration list: schemas x flag sets, restricted to the combinations that apply.
 func corpus(verif, repo string, thorough bool) []*Config {
 	var out []*Config
+	for _, c := range libConfigs(verif) {
+		if c.Quick || thorough {
+			out = append(out, c)
+		}
+	}
 	for _, s := range schemaSets(verif, repo) {
 		for _, fs := range flagSets() {
 			if fs.compress && !s.openconfig {
